@@ -223,6 +223,8 @@ impl PendingSubscriptionSink {
 	pub async fn reject(self, err: impl Into<ErrorObjectOwned>) {
 		let err = MethodResponse::subscription_error(self.id, err.into());
 		_ = self.inner.send(err.to_json()).await;
+		#[cfg(jsonrpsee_verif)]
+		crate::verif::preempt("reject:response-queued").await;
 		_ = self.subscribe.send(err);
 	}
 
@@ -246,6 +248,8 @@ impl PendingSubscriptionSink {
 		// The same message is sent twice here because one is sent directly to the transport layer and
 		// the other one is sent internally to accept the subscription.
 		self.inner.send(response.to_json()).await.map_err(|_| PendingSubscriptionAcceptError)?;
+		#[cfg(jsonrpsee_verif)]
+		crate::verif::preempt("accept:response-queued").await;
 		self.subscribe.send(response).map_err(|_| PendingSubscriptionAcceptError)?;
 
 		if success {
